@@ -1,7 +1,588 @@
 import Bardolph.Model.Wf
+import Bardolph.Proofs.Ctl
+import Bardolph.Proofs.WfCert
 /-!
 # C05 — on every path, compiled control transfers stay in the script and frames balance
-(theorems follow; see below)
+
+`Wf.wfImage` is a static checker of compiled images.  This file proves that it is *sound* for
+the VM model: when `wfImage img = true`, every state the VM model can reach from its initial
+state — whatever the data, the lights, the outcomes of the conditions — satisfies `Inv img`:
+
+* the frame stack has exactly the shape the checker computed for the current program point:
+  the `loop`/`pend` markers of the abstract state at `pc`, then nothing (main code) or a call
+  frame whose return address is the `END_CTX` right after a `JSR` of this routine in the
+  caller's segment, and so on recursively for the caller (`CtlInv`, `Base`);
+* the status is never a control fault;
+* a halted machine stopped at the end of the code with an empty frame stack.
+
+Corollaries: `C05_pc_in_range`, `C05_no_control_fault`, `C05_halts_balanced`,
+`C05_routine_only_by_call`.  The checker itself is run on the images the real parser and
+loader produce by the harness (`check C05`).
 -/
 namespace Bardolph
+namespace C05
+open Vm Wf Ctl
+
+/-! ## The invariant -/
+
+def kshape : Kind → FShape
+  | .loop => .loop
+  | .pend => .pend
+
+/-- the frames an abstract state stands for -/
+def marks (a : Abs) : List FShape := a.frames.map kshape
+
+/-- `pc` is a point of segment `g` and the checker's abstract state there is `a` -/
+structure At (g : Seg) (pc : Nat) (a : Abs) : Prop where
+  lo : g.lo ≤ pc
+  hi : pc ≤ g.hi
+  abs : g.abs[pc - g.lo]? = some a
+
+/-- what lies below the markers of the current activation when control is in segment `g`:
+nothing when `g` is the main segment; when `g` is a routine body, a call frame returning to
+`j + 1`, where `j` is a `JSR` to this very routine inside some segment `g'`, followed by
+`END_CTX`, and below it the frames of a control state that is legal at `j + 1` in `g'` -/
+inductive Base (img : Image) (C : CertData) : Seg → List FShape → Prop
+  | main {g : Seg} : g ∈ C.segs → g.inRoutine = false → Base img C g []
+  | call {g g' : Seg} {j : Nat} {name : String} {a' : Abs} {base' : List FShape} :
+      g ∈ C.segs → g.inRoutine = true → g' ∈ C.segs → g'.lo ≤ j → At g' (j + 1) a' →
+      img.code[j]? = some (.jsr name) → img.code[j + 1]? = some .endCtx →
+      img.routine? name = some g.lo → Base img C g' base' →
+      Base img C g (.call (j + 1) :: (marks a' ++ base'))
+
+/-- the control state `(pc, frame shapes)` is one the checker foresaw -/
+def CtlInv (img : Image) (C : CertData) (pc : Int) (sh : List FShape) : Prop :=
+  (img.routines ≠ [] ∧ pc = 0 ∧ sh = []) ∨
+  ∃ (g : Seg) (n : Nat) (a : Abs) (base : List FShape), g ∈ C.segs ∧ pc = (n : Int) ∧ At g n a ∧ Base img C g base ∧
+    sh = marks a ++ base
+
+structure InvC (img : Image) (C : CertData) (s : State) : Prop where
+  ctl : CtlInv img C s.pc (shapes s)
+  noCtl : ∀ w, s.status = .fault w → ctlFault w = false
+  halted : s.status = .halted → s.stack = [] ∧ s.pc = img.code.size
+
+/-- the invariant of checked images -/
+def Inv (img : Image) (s : State) : Prop := InvC img (certOf img) s
+
+/-! ## Preservation -/
+
+section
+variable {img : Image} {C : CertData}
+
+theorem Base.of_main {g : Seg} {base : List FShape} (h : Base img C g base)
+    (hm : g.inRoutine = false) : base = [] := by
+  cases h with
+  | main => rfl
+  | call _ hr => rw [hm] at hr; cases hr
+
+theorem Base.of_routine {g : Seg} {base : List FShape} (h : Base img C g base)
+    (hm : g.inRoutine = true) :
+    ∃ g' j name a' base', g' ∈ C.segs ∧ g'.lo ≤ j ∧ At g' (j + 1) a' ∧
+      img.code[j]? = some (.jsr name) ∧ img.code[j + 1]? = some .endCtx ∧
+      img.routine? name = some g.lo ∧ Base img C g' base' ∧
+      base = .call (j + 1) :: (marks a' ++ base') := by
+  cases h with
+  | main _ hr => rw [hm] at hr; cases hr
+  | call _ _ h1 h2 h3 h4 h5 h6 h7 => exact ⟨_, _, _, _, _, h1, h2, h3, h4, h5, h6, h7, rfl⟩
+
+theorem CtlInv.seg {g : Seg} {n : Nat} {a : Abs} {base : List FShape} {pc : Int}
+    {sh : List FShape} (hg : g ∈ C.segs) (hat : At g n a) (hb : Base img C g base)
+    (hpc : pc = (n : Int)) (hsh : sh = marks a ++ base) : CtlInv img C pc sh :=
+  .inr ⟨g, n, a, base, hg, hpc, hat, hb, hsh⟩
+
+/-- an outcome whose running alternative is a foreseen control state keeps the invariant -/
+theorem InvC.of_outcome {s s' : State} {pc' : Int} {sh' : List FShape} (h : InvC img C s)
+    (ho : Outcome s s' pc' sh') (hc : CtlInv img C pc' sh') : InvC img C s' := by
+  rcases ho with ⟨h1, h2, h3⟩ | ⟨h1, h2, h3, h4⟩
+  · refine ⟨by rw [h2, h3]; exact hc, ?_, ?_⟩
+    · intro w hw; rw [h1] at hw; cases hw
+    · intro hh; rw [h1] at hh; cases hh
+  · refine ⟨by rw [h3, h4]; exact h.ctl, ?_, ?_⟩
+    · intro w hw; rw [hw] at h2; simpa [dataStatus] using h2
+    · intro hh; rw [hh] at h2; simp [dataStatus] at h2
+
+/-- a data instruction passes `transfer` without touching the frame markers -/
+theorem transfer_data {inR : Bool} {known : List String} {next : Option Instr} {a a1 : Abs}
+    {i : Instr} (hd : isCtl i = false) (h : transfer inR known next a i = some a1) :
+    a1.frames = a.frames := by
+  cases i <;> simp [isCtl] at hd <;> simp [transfer] at h <;> try (rw [← h])
+  all_goals (obtain ⟨_, rfl⟩ := h; rfl)
+
+theorem marks_loop_all {a : Abs} (h : a.frames.contains Kind.pend = false) :
+    ∀ x ∈ marks a, x = FShape.loop := by
+  intro x hx
+  simp only [marks, List.mem_map] at hx
+  obtain ⟨k, hk, rfl⟩ := hx
+  cases k with
+  | loop => rfl
+  | pend => simp at h; exact absurd hk h
+
+/-- the `END_CTX` after a `JSR` is not the last point of its segment -/
+theorem ret_lt_hi (hC : CertOk img C) {g' : Seg} {j : Nat} {a' : Abs} (hg' : g' ∈ C.segs)
+    (hat : At g' (j + 1) a') (hend : img.code[j + 1]? = some .endCtx) : j + 1 < g'.hi := by
+  have hok := hC.segs g' hg'
+  rcases Nat.lt_or_ge (j + 1) g'.hi with h | h
+  · exact h
+  · have he : j + 1 = g'.hi := Nat.le_antisymm hat.hi h
+    cases hr : g'.inRoutine with
+    | false =>
+      have := (hok.main hr).2
+      rw [he, this] at hend
+      simp at hend
+    | true =>
+      have := (hok.rout hr).2.2.1
+      rw [he, this] at hend
+      cases hend
+
+/-- returning through `RETURN`: control continues after the `END_CTX` -/
+theorem ctl_after_ret (hC : CertOk img C) {g' : Seg} {j : Nat} {a' : Abs}
+    {base' : List FShape} (hg' : g' ∈ C.segs) (hat : At g' (j + 1) a')
+    (hend : img.code[j + 1]? = some .endCtx) (hb : Base img C g' base') :
+    CtlInv img C (((j + 1 : Nat) : Int) + 1) (marks a' ++ base') := by
+  have hok := hC.segs g' hg'
+  have hlt := ret_lt_hi hC hg' hat hend
+  obtain ⟨i, a0, a1, hci, ha0, ha1, htr⟩ := hok.point hat.lo hlt
+  rw [hend] at hci
+  cases hci
+  rw [hat.abs] at ha0
+  cases ha0
+  simp only [transfer] at htr
+  cases htr
+  have := hat.lo
+  exact CtlInv.seg hg' ⟨by omega, by omega, ha1⟩ hb (by omega) rfl
+
+/-- one step from a point strictly inside a segment -/
+theorem InvC.step_inner (hC : CertOk img C) {s : State} (h : InvC img C s)
+    (hst : s.status = .running) {g : Seg} {n : Nat} {a : Abs} {base : List FShape}
+    (hg : g ∈ C.segs) (hat : At g n a) (hb : Base img C g base) (hpc : s.pc = (n : Int))
+    (hsh : shapes s = marks a ++ base) (hlt : n < g.hi) : InvC img C (step img s) := by
+  have hok := hC.segs g hg
+  obtain ⟨i, a0, a1, hci, ha0, ha1, htr⟩ := hok.point hat.lo hlt
+  rw [hat.abs] at ha0
+  cases ha0
+  have hpc0 : 0 ≤ s.pc := by omega
+  have hcode : img.code[s.pc.toNat]? = some i := by rw [hpc]; simpa using hci
+  have hlo := hat.lo
+  have hat1 : At g (n + 1) a1 := ⟨by omega, by omega, ha1⟩
+  have hpc1 : s.pc + 1 = ((n + 1 : Nat) : Int) := by omega
+  by_cases hd : isCtl i = false
+  · -- data
+    have hf := transfer_data hd htr
+    refine h.of_outcome (step_data hst hpc0 hcode hd) (CtlInv.seg hg hat1 hb hpc1 ?_)
+    rw [hsh, marks, marks, hf]
+  cases i <;> (try (simp [isCtl] at hd; done)) <;> clear hd
+  case jump c off =>
+    have hind : c ≠ .indirect := by
+      rintro rfl; simp [transfer] at htr
+    have ha1' : a1 = a := by
+      cases c <;> simp [transfer] at htr <;> first | exact htr.symm | exact absurd rfl hind
+    subst ha1'
+    obtain ⟨t, ht, ht1, ht2, ht3⟩ := hok.jump hat.lo hlt hci
+    rcases step_jump hst hpc0 hcode hind with ho | ⟨_, ho⟩
+    · exact h.of_outcome ho (CtlInv.seg hg ⟨ht1, ht2, ht3.trans hat.abs⟩ hb (by omega) hsh)
+    · exact h.of_outcome ho (CtlInv.seg hg hat1 hb hpc1 hsh)
+  case loop =>
+    simp only [transfer, Option.some.injEq] at htr
+    subst htr
+    refine h.of_outcome (step_loop hst hpc0 hcode) (CtlInv.seg hg hat1 hb hpc1 ?_)
+    simp [hsh, marks, kshape]
+  case endLoop =>
+    simp only [transfer] at htr
+    split at htr
+    · rename_i rest hfr
+      cases htr
+      have hsh' : shapes s = .loop :: (rest.map kshape ++ base) := by
+        simp [hsh, marks, hfr, kshape]
+      exact h.of_outcome (step_endLoop hst hpc0 hcode hsh') (CtlInv.seg hg hat1 hb hpc1 rfl)
+    · cases htr
+  case ctx =>
+    simp only [transfer, Option.some.injEq] at htr
+    subst htr
+    refine h.of_outcome (step_ctx hst hpc0 hcode) (CtlInv.seg hg hat1 hb hpc1 ?_)
+    simp [hsh, marks, kshape]
+  case param nm src =>
+    simp only [transfer] at htr
+    split at htr
+    · rename_i rest hfr
+      cases htr
+      have hsh' : shapes s = .pend :: (rest.map kshape ++ base) := by
+        simp [hsh, marks, hfr, kshape]
+      exact h.of_outcome (step_param hst hpc0 hcode hsh') (CtlInv.seg hg hat1 hb hpc1 hsh)
+    · cases htr
+  case jsr name =>
+    simp only [transfer] at htr
+    split at htr
+    · rename_i rest hfr hnext
+      split at htr
+      · rename_i hknown
+        cases htr
+        have hsh' : shapes s = .pend :: (rest.map kshape ++ base) := by
+          simp [hsh, marks, hfr, kshape]
+        cases hu : img.routine? name with
+        | some addr =>
+          obtain ⟨g2, hg2, hr2, hlo2⟩ := hC.user name addr hu
+          have hok2 := hC.segs g2 hg2
+          have hat2 : At g2 addr Abs.empty :=
+            ⟨by omega, by have := hok2.le; omega, by rw [← hlo2]; simpa using hok2.first⟩
+          have hret : (s.pc + 1).toNat = n + 1 := by omega
+          refine h.of_outcome (step_jsr_user hst hpc0 hcode hsh' hu)
+            (CtlInv.seg hg2 hat2
+              (Base.call hg2 hr2 hg hat.lo hat1 hci hnext (hlo2 ▸ hu) hb) rfl ?_)
+          simp [hret, marks, Abs.empty]
+        | none =>
+          have hbi := hC.builtin name (by simpa [List.contains_iff_mem] using hknown) hu
+          exact h.of_outcome (step_jsr_builtin hst hpc0 hcode hsh' hu hbi)
+            (CtlInv.seg hg hat1 hb hpc1 rfl)
+      · cases htr
+    · cases htr
+  case ret =>
+    simp only [transfer] at htr
+    split at htr
+    · rename_i hcond
+      cases htr
+      simp only [Bool.and_eq_true, Bool.not_eq_true'] at hcond
+      obtain ⟨g', j, name, a', base', hg', _, hat', _, hend, _, hb', rfl⟩ := hb.of_routine hcond.1
+      exact h.of_outcome (step_ret hst hpc0 hcode (marks_loop_all hcond.2) hsh)
+        (ctl_after_ret hC hg' hat' hend hb')
+    · cases htr
+  case endMatrix =>
+    simp only [transfer] at htr
+    split at htr
+    · cases htr
+      exact h.of_outcome (step_endMatrix hst hpc0 hcode) (CtlInv.seg hg hat1 hb hpc1 hsh)
+    · cases htr
+  all_goals (simp [transfer] at htr)
+
+/-- one step from the end point of a segment: the main code halts with an empty frame stack,
+a routine returns to its caller -/
+theorem InvC.step_end (hC : CertOk img C) {s : State} (h : InvC img C s)
+    (hst : s.status = .running) {g : Seg} {a : Abs} {base : List FShape}
+    (hg : g ∈ C.segs) (hat : At g g.hi a) (hb : Base img C g base) (hpc : s.pc = (g.hi : Int))
+    (hsh : shapes s = marks a ++ base) : InvC img C (step img s) := by
+  have hok := hC.segs g hg
+  have ha : a = Abs.empty := by
+    have := hok.lastAbs; rw [hat.abs] at this; injection this
+  subst ha
+  have hpc0 : 0 ≤ s.pc := by omega
+  cases hr : g.inRoutine with
+  | false =>
+    have hsize := (hok.main hr).2
+    have hnone : img.code[s.pc.toNat]? = none := by rw [hpc, hsize]; simp
+    have hbase := hb.of_main hr
+    subst hbase
+    have hstack : s.stack = [] := by simpa [shapes, marks, Abs.empty] using hsh
+    rw [step_halts hst hpc0 hnone]
+    refine ⟨h.ctl, ?_, ?_⟩
+    · intro w hw; cases hw
+    · intro _; exact ⟨hstack, by rw [hpc, hsize]⟩
+  | true =>
+    have hcode : img.code[s.pc.toNat]? = some (.end_ g.name) := by
+      rw [hpc]; simpa using (hok.rout hr).2.2.1
+    obtain ⟨g', j, name, a', base', hg', _, hat', _, _, _, hb', rfl⟩ := hb.of_routine hr
+    have hsh' : shapes s = [] ++ .call (j + 1) :: (marks a' ++ base') := by
+      simpa [marks, Abs.empty] using hsh
+    exact h.of_outcome (Ctl.step_end hst hpc0 hcode (by simp) hsh')
+      (CtlInv.seg hg' hat' hb' rfl rfl)
+
+/-- the first step of an image with routines: `JUMP` to the main code -/
+theorem InvC.step_start (hC : CertOk img C) {s : State} (h : InvC img C s)
+    (hst : s.status = .running) (hr : img.routines ≠ []) (hpc : s.pc = 0)
+    (hsh : shapes s = []) : InvC img C (step img s) := by
+  rcases hC.prologue with ⟨h0, _⟩ | ⟨_, hc0, h1⟩
+  · exact absurd h0 hr
+  · obtain ⟨g, hg, hgm⟩ := hC.mainSeg
+    have hok := hC.segs g hg
+    have hlo := (hok.main hgm).1
+    have hcode : img.code[s.pc.toNat]? = some (.jump .always C.mainLo) := by
+      rw [hpc]; simpa using hc0
+    have hat : At g C.mainLo Abs.empty :=
+      ⟨by omega, by have := hok.le; omega, by rw [← hlo]; simpa using hok.first⟩
+    rcases step_jump hst (by omega) hcode (by simp) with ho | ⟨hne, _⟩
+    · exact h.of_outcome ho (CtlInv.seg hg hat (Base.main hg hgm) (by omega)
+        (by simp [hsh, marks, Abs.empty]))
+    · exact absurd rfl hne
+
+/-- **preservation**: a step of the VM model keeps the invariant -/
+theorem InvC.step (hC : CertOk img C) {s : State} (h : InvC img C s) : InvC img C (step img s) := by
+  by_cases hst : s.status = .running
+  · rcases h.ctl with ⟨hr, hpc, hsh⟩ | ⟨g, n, a, base, hg, hpc, hat, hb, hsh⟩
+    · exact h.step_start hC hst hr hpc hsh
+    · rcases Nat.lt_or_ge n g.hi with hlt | hge
+      · exact h.step_inner hC hst hg hat hb hpc hsh hlt
+      · have he : n = g.hi := Nat.le_antisymm hat.hi hge
+        subst he
+        exact h.step_end hC hst hg hat hb hpc hsh
+  · have : Vm.step img s = s := by unfold Vm.step; simp [hst]
+    rw [this]; exact h
+
+theorem InvC.run (hC : CertOk img C) (fuel : Nat) {s : State} (h : InvC img C s) :
+    InvC img C (run img fuel s) := by
+  induction fuel generalizing s with
+  | zero => exact h
+  | succ n ih =>
+    unfold Vm.run
+    split
+    · exact h
+    · exact ih (h.step hC)
+
+/-- the initial state satisfies the invariant -/
+theorem InvC.init (hC : CertOk img C) (lights : List Light) : InvC img C (Vm.init lights) := by
+  refine ⟨?_, ?_, ?_⟩
+  · rcases hC.prologue with ⟨_, hm⟩ | ⟨hr, _, _⟩
+    · obtain ⟨g, hg, hgm⟩ := hC.mainSeg
+      have hok := hC.segs g hg
+      have hlo := (hok.main hgm).1
+      have hat : At g 0 Abs.empty :=
+        ⟨by omega, Nat.zero_le _, by simpa using hok.first⟩
+      exact CtlInv.seg hg hat (Base.main hg hgm) rfl rfl
+    · exact .inl ⟨hr, rfl, rfl⟩
+  · intro w hw; cases hw
+  · intro hh; cases hh
+
+end
+
+/-! ## Soundness of the checker -/
+
+/-- states the VM model can reach from its initial state by iterating `Vm.step` -/
+inductive Reach (img : Image) (lights : List Light) : State → Prop
+  | init : Reach img lights (Vm.init lights)
+  | step {s : State} : Reach img lights s → Reach img lights (Vm.step img s)
+
+theorem reach_run (img : Image) (lights : List Light) (fuel : Nat) :
+    Reach img lights (run img fuel (Vm.init lights)) := by
+  suffices ∀ s, Reach img lights s → Reach img lights (run img fuel s) from this _ .init
+  induction fuel with
+  | zero => intro s h; exact h
+  | succ n ih =>
+    intro s h
+    unfold Vm.run
+    split
+    · exact h
+    · exact ih _ h.step
+
+/-- **C05, soundness of `wfImage`**: every reachable state of a checked image satisfies the
+invariant -/
+theorem C05_wf_sound_reach {img : Image} (hwf : wfImage img = true) {lights : List Light}
+    {s : State} (hr : Reach img lights s) : Inv img s := by
+  have hC := cert_ok hwf
+  induction hr with
+  | init => exact InvC.init hC lights
+  | step _ ih => exact ih.step hC
+
+/-- **C05, soundness of `wfImage`**, in terms of `Vm.run`: for all amounts of fuel and all
+sets of lights -/
+theorem C05_wf_sound {img : Image} (hwf : wfImage img = true) (fuel : Nat)
+    (lights : List Light) : Inv img (run img fuel (Vm.init lights)) :=
+  C05_wf_sound_reach hwf (reach_run img lights fuel)
+
+/-! ## What the invariant gives -/
+
+theorem Inv.pc_in_range {img : Image} (hwf : wfImage img = true) {s : State} (h : Inv img s) :
+    0 ≤ s.pc ∧ s.pc ≤ img.code.size := by
+  have hC := cert_ok hwf
+  rcases h.ctl with ⟨_, hpc, _⟩ | ⟨g, n, a, base, hg, hpc, hat, _, _⟩
+  · rw [hpc]; omega
+  · have hok := hC.segs g hg
+    have hhi := hat.hi
+    have hml := hC.mainLe
+    cases hr : g.inRoutine with
+    | false => have := (hok.main hr).2; omega
+    | true => have := (hok.rout hr).2.2.2; omega
+
+/-- control never leaves the program -/
+theorem C05_pc_in_range {img : Image} (hwf : wfImage img = true) (fuel : Nat)
+    (lights : List Light) :
+    0 ≤ (run img fuel (Vm.init lights)).pc ∧
+      (run img fuel (Vm.init lights)).pc ≤ img.code.size :=
+  (C05_wf_sound hwf fuel lights).pc_in_range hwf
+
+/-- no execution ends in a control fault -/
+theorem C05_no_control_fault {img : Image} (hwf : wfImage img = true) (fuel : Nat)
+    (lights : List Light) :
+    let st := (run img fuel (Vm.init lights)).status
+    st ≠ .fault "pc negative" ∧ st ≠ .fault "END_LOOP without loop frame" ∧
+    st ≠ .fault "return outside a routine" ∧ st ≠ .fault "JSR without CTX" ∧
+    st ≠ .fault "PARAM without CTX" ∧ st ≠ .fault "ROUTINE executed" ∧
+    st ≠ .fault "indirect jump" ∧ (∀ n, st ≠ .fault ("unknown routine " ++ n)) ∧
+    (∀ w, st ≠ .fault ("bad instruction " ++ w)) := by
+  have h := (C05_wf_sound hwf fuel lights).noCtl
+  have key : ∀ w, ctlFault w = true → (run img fuel (Vm.init lights)).status ≠ .fault w := by
+    intro w hw he
+    rw [h w he] at hw
+    cases hw
+  exact ⟨key _ (by decide), key _ (by decide), key _ (by decide), key _ (by decide),
+    key _ (by decide), key _ (by decide), key _ (by decide),
+    fun n => key _ (ctlFault_unknown n), fun w => key _ (ctlFault_bad w)⟩
+
+/-- a machine that halts has run off the end of the code with nothing left on the frame stack:
+every loop and call that was entered has been left -/
+theorem C05_halts_balanced {img : Image} (hwf : wfImage img = true) (fuel : Nat)
+    (lights : List Light) (hh : (run img fuel (Vm.init lights)).status = .halted) :
+    (run img fuel (Vm.init lights)).stack = [] ∧
+      (run img fuel (Vm.init lights)).pc = img.code.size :=
+  (C05_wf_sound hwf fuel lights).halted hh
+
+/-- while the main code executes, the frame stack is exactly what the checker computed for
+that program point: `loop`/`pend` markers only, no call frame -/
+theorem Inv.main_frames {img : Image} (hwf : wfImage img = true) {s : State} (h : Inv img s)
+    (hm : (mainStart img : Int) ≤ s.pc) :
+    ∃ a, (mainSeg img).abs[s.pc.toNat - mainStart img]? = some a ∧ shapes s = marks a := by
+  have hC := cert_ok hwf
+  rcases h.ctl with ⟨hne, hpc, _⟩ | ⟨g, n, a, base, hg, hpc, hat, hb, hsh⟩
+  · rcases hC.prologue with ⟨h0, _⟩ | ⟨_, _, h1⟩
+    · exact absurd h0 hne
+    · simp only [certOf] at h1; omega
+  · have hok := hC.segs g hg
+    cases hr : g.inRoutine with
+    | true =>
+      have := (hok.rout hr).2.2.2
+      have := hat.hi
+      simp only [certOf] at *
+      omega
+    | false =>
+      have hgm : g = mainSeg img := by
+        simp only [certOf, List.mem_cons, List.mem_map] at hg
+        rcases hg with rfl | ⟨sp, _, rfl⟩
+        · rfl
+        · simp [routineSeg] at hr
+      subst hgm
+      have hb0 := hb.of_main hr
+      subst hb0
+      refine ⟨a, ?_, by simpa using hsh⟩
+      have := hat.abs
+      rw [hpc]
+      simpa [mainSeg] using this
+
+theorem C05_main_frames {img : Image} (hwf : wfImage img = true) (fuel : Nat)
+    (lights : List Light) (hm : (mainStart img : Int) ≤ (run img fuel (Vm.init lights)).pc) :
+    ∃ a, (mainSeg img).abs[(run img fuel (Vm.init lights)).pc.toNat - mainStart img]? = some a ∧
+      shapes (run img fuel (Vm.init lights)) = marks a :=
+  (C05_wf_sound hwf fuel lights).main_frames hwf hm
+
+/-- `pc` is inside a routine body, read off the code alone: some `ROUTINE` marker stands before
+`pc` with no `END` strictly between the two -/
+def InRoutineBody (img : Image) (pc : Int) : Prop :=
+  ∃ (r : Nat) (name : String), img.code[r]? = some (.routine name) ∧ (r : Int) < pc ∧
+    ∀ (q : Nat) (n : String), r < q → (q : Int) < pc → img.code[q]? ≠ some (.end_ n)
+
+theorem call_mem_of_shapes {s : State} {ret : Nat} (h : FShape.call ret ∈ shapes s) :
+    ∃ locals, Frame.call locals ret ∈ s.stack := by
+  simp only [shapes, List.mem_map] at h
+  obtain ⟨f, hf, hs⟩ := h
+  cases f with
+  | call locals r =>
+    simp only [shapeOf, FShape.call.injEq] at hs
+    subst hs
+    exact ⟨locals, hf⟩
+  | loop _ _ => cases hs
+  | pending _ => cases hs
+
+theorem Inv.routine_only_by_call {img : Image} (hwf : wfImage img = true) {s : State}
+    (h : Inv img s) (hin : InRoutineBody img s.pc) :
+    ∃ locals j name, Frame.call locals (j + 1) ∈ s.stack ∧
+      img.code[j]? = some (.jsr name) ∧ img.code[j + 1]? = some .endCtx := by
+  have hC := cert_ok hwf
+  obtain ⟨r, rname, hrc, hrlt, hnoend⟩ := hin
+  rcases h.ctl with ⟨_, hpc, _⟩ | ⟨g, n, a, base, hg, hpc, hat, hb, hsh⟩
+  · omega
+  · have hok := hC.segs g hg
+    cases hr : g.inRoutine with
+    | true =>
+      obtain ⟨g', j, name, a', base', _, _, _, hj, hend, _, _, rfl⟩ := hb.of_routine hr
+      obtain ⟨locals, hm⟩ := call_mem_of_shapes (s := s) (ret := j + 1) (by simp [hsh])
+      exact ⟨locals, j, name, hm, hj, hend⟩
+    | false =>
+      exfalso
+      obtain ⟨hlo, hhi⟩ := hok.main hr
+      have hnlo := hat.lo
+      have hnhi := hat.hi
+      rcases Nat.lt_or_ge r (certOf img).mainLo with hlt | hge
+      · -- the marker is in the routine area: an `END` follows before the main code
+        rcases hC.prologue with ⟨_, hm0⟩ | ⟨_, hc0, _⟩
+        · omega
+        · have hr1 : 1 ≤ r := by
+            rcases Nat.eq_zero_or_pos r with rfl | hp
+            · rw [hc0] at hrc; cases hrc
+            · exact hp
+          obtain ⟨q, qn, hq1, hq2, hq3⟩ := hC.endAfter r rname hr1 hlt hrc
+          exact hnoend q qn hq1 (by omega) hq3
+      · -- the marker would be an instruction of the main code: `transfer` rejects it
+        obtain ⟨i, a0, a1, hci, _, _, htr⟩ := hok.point (pc := r) (by omega) (by omega)
+        rw [hrc] at hci
+        cases hci
+        simp [transfer] at htr
+
+/-- control is inside a routine body only by a call: whenever `pc` stands in a routine body,
+the frame stack holds the frame of a call, whose return address is the `END_CTX` right after a
+`JSR` -/
+theorem C05_routine_only_by_call {img : Image} (hwf : wfImage img = true) (fuel : Nat)
+    (lights : List Light) (hin : InRoutineBody img (run img fuel (Vm.init lights)).pc) :
+    ∃ locals j name, Frame.call locals (j + 1) ∈ (run img fuel (Vm.init lights)).stack ∧
+      img.code[j]? = some (.jsr name) ∧ img.code[j + 1]? = some .endCtx :=
+  (C05_wf_sound hwf fuel lights).routine_only_by_call hwf hin
+
+/-! ## The hypotheses are satisfiable -/
+
+/-- ```
+define f with x begin
+  repeat begin  if … break;  …;  if … return  end
+end
+repeat … begin  f(1)  end
+``` -/
+def demo : Image :=
+  { code := #[
+      .jump .always 10,                      --  0  prologue: to the main code
+      .routine "f",                          --  1
+      .loop,                                 --  2
+      .jump .ifTrue 5,                       --  3  break: to the END_LOOP at 8
+      .moveq (.bool true) (.reg .result),    --  4
+      .jump .ifFalse 2,                      --  5  skip the return
+      .ret,                                  --  6  RETURN from inside the loop
+      .jump .always (-4),                    --  7  back edge
+      .endLoop,                              --  8
+      .end_ "f",                             --  9
+      .loop,                                 -- 10  main code
+      .ctx,                                  -- 11
+      .param "x" (.lit (.int 1)),            -- 12
+      .jsr "f",                              -- 13
+      .endCtx,                               -- 14
+      .jump .ifFalse (-4),                   -- 15  back edge
+      .endLoop],                             -- 16
+    routines := [("f", 2)] }
+
+/-- the checker accepts it … -/
+example : wfImage demo = true := by decide
+
+/-- … it runs into the routine, inside its loop, under the call frame, inside main's loop … -/
+example : (run demo 6 (Vm.init [])).pc = 3 ∧
+    shapes (run demo 6 (Vm.init [])) = [.loop, .call 14, .loop] := by decide +kernel
+
+/-- … and halts at the end of the code with an empty frame stack, as `C05_halts_balanced` says -/
+example : (run demo 20 (Vm.init [])).status = .halted ∧ (run demo 20 (Vm.init [])).pc = 17 := by
+  decide +kernel
+
+example : InRoutineBody demo 3 := ⟨1, "f", rfl, by decide, by
+  intro q n h1 h2
+  have : q = 2 := by omega
+  subst this
+  simp [demo]⟩
+
+/-- a break that leaves the routine body instead of its loop is rejected -/
+example : wfImage { demo with code := demo.code.set! 3 (.jump .ifTrue 8) } = false := by decide
+
+/-- a `RETURN` in the main code is rejected -/
+example : wfImage { demo with code := demo.code.set! 14 .ret } = false := by decide
+
+/-- a routine table that points into the middle of a body is rejected -/
+example : wfImage { demo with routines := [("f", 3)] } = false := by decide
+
+/-- a call of a routine that does not exist is rejected -/
+example : wfImage { demo with code := demo.code.set! 13 (.jsr "g") } = false := by decide
+
+/-- an unbalanced `END_LOOP` is rejected — and the model VM does fault on it -/
+example : wfImage { code := #[.endLoop], routines := [] } = false ∧
+    (run { code := #[.endLoop], routines := [] } 1 (Vm.init [])).status =
+      .fault "END_LOOP without loop frame" := by decide +kernel
+
+end C05
 end Bardolph
